@@ -488,6 +488,16 @@ func (s *Sched) Threads() []*Thread { return s.threads }
 //
 //go:norace
 func (s *Sched) Abort() {
+	// The unwinding goroutines ask the current scheduler whether it is aborting (their deferred shim calls must be
+	// no-ops, a deferred Wait must not block): make this scheduler the current one while it tears down - another
+	// world may have been created (and closed) since this one was.
+	prev := cur
+	cur = s
+	defer func() {
+		if prev != s {
+			cur = prev
+		}
+	}()
 	s.aborting = true
 	for i := 0; i < len(s.threads); i++ { // threads may not grow while aborting, but be safe
 		t := s.threads[i]
